@@ -1924,6 +1924,8 @@ val grecord : (byte list * tlsPlaintext) g
 
 val gcase_multi : case list g
 
+val gcase_hsbody : case list g
+
 val families_tls : (string * case list g) list
 
 val enc_dh : serverDHParams -> byte list
